@@ -161,7 +161,9 @@ Inductive exec_result :=
 | ERespError (c : cond) (terminal : bool)(* raises ResponseError (CloseConnection: OK + BYE) *)
 | EAuthError                             (* raises AuthenticationError *)
 | ETimeout                               (* raises TimeoutError *)
-| EWriteFails                            (* returns, but writing the response raises *)
+| EWriteRespError (c : cond)             (* returns OK/NO; producing the response raises ResponseError
+                                            (UnknownCTE of FETCH BINARY): answered like a raise (f39c4ca) *)
+| EWriteOther                            (* returns; producing the response raises anything else *)
 | EOther.                                (* raises anything else *)
 
 (* responses as the monitor classifies them *)
@@ -194,7 +196,8 @@ Definition respond_cmd (st : cstate) (bad : nat) (exec : ckind -> exec_result)
       | ERespError c false => ([RTagged tag c], bad)
       | EAuthError => ([RTagged tag BAD], bad)
       | ETimeout => ([RTagged tag NO], bad)
-      | EWriteFails => ([RPartial; RClose], bad)
+      | EWriteRespError c => ([RTagged tag c], O)
+      | EWriteOther => ([RBye true; RClose], O)
       | EOther => ([RBye true; RClose], bad)
       end
   | OInterrupt _ => ([RContinuation], bad)       (* not reached through read_command *)
